@@ -207,21 +207,30 @@ def impl_world(rng, wid, modroot="w", stats=None):
     nif = rng.randint(2, 4)
     ifaces = []
     lines = ["package ifc", "", "type N struct{ V int }", "type M struct{ W string }", "type AN = N", "type APN = *N", "type Bytes = []byte", "const Anchor = 0", "",
-             "type NotAnInterface struct{}", "func FuncNamedLikeAnInterface() {}", "type Empty interface{}", ""]
+             "type NotAnInterface struct{}", "func FuncNamedLikeAnInterface() {}", "type Empty interface{}", "type MixLocal struct{}", "func (MixLocal) hidl(x int) {}", ""]
     for i in range(nif):
         ms = [rand_method(rng, "M%d" % j) for j in range(rng.randint(1, 4))]
         emb = None
         if i > 0 and rng.random() < 0.3:
             emb = "I%d" % rng.randrange(i)
         ifaces.append({"name": "I%d" % i, "methods": ms, "embeds": emb})
+        hid = None
+        if rng.random() < 0.4:
+            # an unexported method: only a method of package ifc can satisfy it - by embedding one of ifc's mixin types
+            hid = rand_method(rng, "hid%d" % i)
+            hid["unexported"] = True
+            ms.append(hid)
         lines.append("type I%d interface {" % i)
         if emb:
             lines.append("\t" + emb)
         for m in ms:
-            nm = m["name"] if not emb else m["name"] + "x%d" % i
+            nm = m["name"] if (not emb or m.get("unexported")) else m["name"] + "x%d" % i
             m["name"] = nm
             lines.append("\t%s%s" % (nm, render_sig(m, "")))
         lines.append("}")
+        if hid:
+            lines += ["type MixV%d struct{}" % i, "func (MixV%d) %s%s {%s}" % (i, hid["name"], render_sig(hid, ""), zero_returns(hid, "")),
+                      "type MixP%d struct{}" % i, "func (*MixP%d) %s%s {%s}" % (i, hid["name"], render_sig(hid, ""), zero_returns(hid, ""))]
         lines.append("")
     files["%s/ifc/ifc.go" % wid] = "\n".join(lines) + "\n"
     # a package whose declared name differs from its directory
@@ -259,6 +268,17 @@ def impl_world(rng, wid, modroot="w", stats=None):
             body = []
             decls = []
             for m in all_methods(I):
+                if m.get("unexported"):
+                    k = m["name"][3:]
+                    how = rng.choice(["mix-v", "mix-v", "mix-vp", "mix-p", "mix-pp", "own", "own-and-mix", "missing"]) if shape == "struct" else rng.choice(["own", "missing"])
+                    count("unexported-method", how)
+                    if how in ("own", "own-and-mix"):
+                        # a method of the same name declared in THIS package is another method (Go qualifies unexported names)
+                        v = variant_of(rng, m, "exact" if how == "own" else "mutate")
+                        decls.append("func (r %s) %s%s {%s}" % (tname, v["name"], render_sig(v, q), zero_returns(v, q)))
+                    if how != "own" and how != "missing":
+                        embeds.append({"mix-v": "%sMixV%s", "mix-vp": "*%sMixV%s", "mix-p": "%sMixP%s", "mix-pp": "*%sMixP%s", "own-and-mix": "%sMixV%s"}[how] % (q, k))
+                    continue
                 how = rng.choice(["exact", "exact", "exact", "respell", "respell", "mutate", "missing"])
                 count("method", how)
                 if how == "missing":
@@ -297,6 +317,15 @@ def impl_world(rng, wid, modroot="w", stats=None):
             decls.append("func (r %s%s) Run%s {%s}" % ("*" if recv_ptr else "", tname, render_sig(v, ""), zero_returns(v, "")))
         out["d.go"] += doc + ["type %s struct{}" % tname] + decls + [""]
         count("qualifier", "none" if qual == "" else "unbound-in-file:" + qual)
+    # a same-package interface with an unexported method: satisfied by a method of THIS package only
+    out["d.go"] += ["type LocalH interface{ hidl(x int) }", "", "// @implements LocalH", "type DH0 struct{}", "func (DH0) hidl(x int) {}", "",
+                    "// @implements LocalH", "type DH1 struct{}", "", "// @implements &LocalH", "type DH2 struct{}", "func (*DH2) hidl(x int) {}", ""]
+    out["a.go"] += ["// @implements LocalH", "type AH struct{ ifc.MixLocal }", ""]
+    # an interface whose signature mentions a defined type of THIS package, in a package that also has an in-package test
+    # file: the stand-alone driver analyses the package twice (t and t [t.test]) with distinct type objects
+    out["d.go"] += ["type Pt struct{ X int }", "type LocalP interface{ At(p Pt) *Pt }", "", "// @implements LocalP", "type DP0 struct{}", "func (DP0) At(p Pt) *Pt { return nil }", "",
+                    "// @implements LocalP", "type DP1 struct{}", "func (DP1) At(p *Pt) *Pt { return nil }", ""]
+    files["%s/t/d_test.go" % wid] = "package t\n\nimport \"testing\"\n\nfunc TestNothing(t *testing.T) { _ = DP0{} }\n"
     # c.go: the package whose name differs from its directory
     for i, (qual, amp) in enumerate([("foo", False), ("foo", True), ("libfoo", False), ("ifc", False)]):
         tname = "C%d" % i
